@@ -123,8 +123,40 @@ def deviceCS : String → Option Nat
   | "DeviceCMYK" => some 4
   | _ => none
 
-/-- Initial colour of a device colour space (Table 74, `CS`). -/
+/-- Initial colour of a colour space (Table 74, `CS`): black — `0 0 0 1` in DeviceCMYK, all
+components 0 in the other device, CIE-based and Indexed spaces — and tint 1.0 for every colorant
+of a Separation / DeviceN space. -/
+def initialColourOf (family : String) (n : Nat) : Color :=
+  if family = "DeviceCMYK" then [0, 0, 0, 1]
+  else if family = "Separation" ∨ family = "DeviceN" then List.replicate n 1
+  else List.replicate n 0
+
 def initialColour (n : Nat) : Color := if n = 4 then [0, 0, 0, 1] else List.replicate n 0
+
+/-- Colour-space families a `ColorSpace` resource may select in this model (a Pattern space has no
+colour components). -/
+def knownFamily (family : String) : Bool :=
+  family = "DeviceGray" || family = "DeviceRGB" || family = "DeviceCMYK" || family = "CalGray" || family = "CalRGB" ||
+  family = "Lab" || family = "ICCBased" || family = "Indexed" || family = "Separation" || family = "DeviceN"
+
+inductive CSRes where
+  | defined (family : String) (n : Nat)
+  | undefined      -- the name means nothing here: the operator is ignored
+  | outside        -- outside the domain (Pattern, a family used without its parameters, odd component counts)
+  deriving Repr, DecidableEq
+
+/-- What the operand of `cs`/`CS` names: an entry of the current `ColorSpace` resources, else one of
+the device colour spaces; the names of the other families need parameters and cannot be used
+directly (outside the domain); any other name is undefined. -/
+def csResolve (res : Res) (name : String) : CSRes :=
+  match lookupCS name res.cspaces with
+  | some (family, n) => if knownFamily family && (n = 1 || n = 3 || n = 4) then .defined family n else .outside
+  | none =>
+    match deviceCS name with
+    | some n => .defined name n
+    | none =>
+      if name = "CalRGB" ∨ name = "CalGray" ∨ name = "Lab" ∨ name = "Separation" ∨ name = "Indexed" ∨ name = "Pattern"
+      then .outside else .undefined
 
 /-- x component of the position vector of a vertical glyph in text space (default: half the em). -/
 def posVx (f : Font) (tfs : Rat) (code : Nat) : Rat :=
@@ -268,13 +300,15 @@ def apply (env : Env) (runForm : Form → GS → Res → Option (List Glyph)) (s
   | .K, [.num c, .num m, .num y, .num k] =>
     if unitRange [c, m, y, k] then some ({ s with gs := { s.gs with strokeN := 4, stroke := some [c, m, y, k] } }, []) else none
   | .cs, [.name n] =>
-    match deviceCS n with
-    | none => none
-    | some k => some ({ s with gs := { s.gs with fillN := k, fill := some (initialColour k) } }, [])
+    match csResolve s.res n with
+    | .defined fam k => some ({ s with gs := { s.gs with fillN := k, fill := some (initialColourOf fam k) } }, [])
+    | .undefined => some (s, [])
+    | .outside => none
   | .CS, [.name n] =>
-    match deviceCS n with
-    | none => none
-    | some k => some ({ s with gs := { s.gs with strokeN := k, stroke := some (initialColour k) } }, [])
+    match csResolve s.res n with
+    | .defined fam k => some ({ s with gs := { s.gs with strokeN := k, stroke := some (initialColourOf fam k) } }, [])
+    | .undefined => some (s, [])
+    | .outside => none
   | .sc, args | .scn, args =>
     let c := numsOf args
     if unitRange c then some ({ s with gs := { s.gs with fill := some c } }, []) else none
@@ -288,9 +322,11 @@ def apply (env : Env) (runForm : Form → GS → Res → Option (List Glyph)) (s
       match env.forms[i]? with
       | none => none
       | some fm =>
+        -- a form XObject must not (directly or indirectly) paint itself
+        if s.res.active.contains i then none else
         -- q ; Matrix cm ; content with the form's resources ; Q
         let gs := { s.gs with ctm := mult_matrix (fm.matrix.getD MATRIX_IDENTITY) s.gs.ctm }
-        match runForm fm gs (fm.res.getD s.res) with
+        match runForm fm gs { fm.res.getD s.res with active := i :: s.res.active } with
         | none => none
         | some gl => some (s, gl)
   | _, _ => none
